@@ -224,7 +224,7 @@ struct Frame {
 };
 
 struct Stats {
-    uint64_t instrs = 0, paths = 0, queries = 0, forks = 0, slowQueries = 0, asserts = 0, sat = 0, unsat = 0;
+    uint64_t instrs = 0, paths = 0, queries = 0, forks = 0, slowQueries = 0, asserts = 0, sat = 0, unsat = 0, simpProved = 0;
     double solver_s = 0;
     std::set<std::string> funcs;
 };
@@ -238,6 +238,10 @@ struct Engine {
     std::unordered_map<const GlobalValue *, uint64_t> gaddr;
     std::unordered_map<uint64_t, Function *> faddr;
     std::unordered_map<std::string, Native> natives;
+    // hooks: defined library functions that are replaced by a model when the hook accepts the call (returns true)
+    using Hook = std::function<bool(Engine &, std::vector<Val> &, const CallBase *, Val &)>;
+    std::unordered_map<std::string, Hook> hooks;
+    std::set<std::string> hooksUsed;
     std::vector<Frame> stack;
     // path state
     struct Dec { bool b; std::string val; };
@@ -269,6 +273,7 @@ struct Engine {
     std::map<uint64_t, ZRec> zrec;
     struct Bnd { z3::expr v; mpz_class lo, hi; };
     std::map<unsigned, Bnd> bounds; // ast id of Int const -> [lo,hi]
+    std::map<unsigned, std::pair<z3::expr, z3::expr>> bridge; // Int term -> its bit-vector bridge
     // harness parameters and known-finding keys
     std::map<std::string, int64_t> params;
     std::set<std::string> knownKeys;
@@ -294,6 +299,34 @@ struct Engine {
             av.push_back(a);
         return it->second(av);
     }
+    uint64_t prunedSingular = 0;
+    void pruneZero(const z3::expr &y)
+    {
+        z3::expr nz = (y != 0).simplify();
+        if (nz.is_true())
+            return;
+        if (nz.is_false() || !feasible(nz))
+            throw PathEnd{"infeasible", "real-mode division by zero (singular point pruned)"};
+        addPC(nz);
+        prunedSingular++;
+    }
+    // try to prove a == b over the reals by polynomial normalisation alone (no solver call)
+    bool provedEqualBySimplifier(const z3::expr &a, const z3::expr &b)
+    {
+        z3::params p(Z);
+        p.set("som", true);
+        p.set("expand_power", true);
+        p.set("hoist_mul", false);
+        p.set("arith_lhs", true);
+        p.set("sort_sums", true);
+        p.set("max_degree", 64u);
+        z3::expr d = (a - b).simplify(p);
+        if (d.is_numeral()) {
+            std::string n = d.get_decimal_string(0);
+            return n == "0";
+        }
+        return false;
+    }
     Val realSqrt(const z3::expr &x)
     {
         z3::expr s = uf("SQRT", {x});
@@ -310,6 +343,7 @@ struct Engine {
         liveOSS.clear();
         zrec.clear();
         bounds.clear();
+        bridge.clear();
         knownHit.clear();
         knownCtx.clear();
         notes.clear();
@@ -1273,10 +1307,11 @@ struct Engine {
                 case Instruction::FSub: return Val::sym((x - y).simplify());
                 case Instruction::FMul: return Val::sym((x * y).simplify());
                 case Instruction::FDiv: {
-                    if (!b.isC() && decide(y == 0))
-                        throw PathEnd{"inconclusive", "real-mode division by zero"};
+                    // singularities are outside the real abstraction: the divisor is constrained to be non-zero (recorded)
                     if (b.isC() && bitsToD(b.c) == 0.0)
-                        throw PathEnd{"inconclusive", "real-mode division by zero"};
+                        throw PathEnd{"infeasible", "real-mode division by zero (singular point pruned)"};
+                    if (!b.isC())
+                        pruneZero(y);
                     return Val::sym((x / y).simplify());
                 }
             }
@@ -1453,6 +1488,20 @@ struct Engine {
             if (auto *inv = dyn_cast<InvokeInst>(cb))
                 enterBlock(inv->getNormalDest());
             return;
+        }
+        if (!hooks.empty()) {
+            auto hit = hooks.find(name);
+            if (hit != hooks.end()) {
+                Val r;
+                if (hit->second(*this, args, cb, r)) {
+                    hooksUsed.insert(name);
+                    if (!cb->getType()->isVoidTy())
+                        reg(cb) = r;
+                    if (auto *inv = dyn_cast<InvokeInst>(cb))
+                        enterBlock(inv->getNormalDest());
+                    return;
+                }
+            }
         }
         if (callee->isDeclaration()) {
             missing.insert(name);
@@ -2027,7 +2076,15 @@ struct Engine {
                 popFrame();
                 break;
             }
-            step();
+            Instruction *cur = &*stack.back().pc;
+            try {
+                step();
+            } catch (z3::exception &ex) {
+                std::string is;
+                raw_string_ostream os(is);
+                cur->print(os);
+                throw PathEnd{"inconclusive", std::string("z3: ") + ex.msg() + " at" + is.substr(0, 120) + " in " + demangle(cur->getFunction()->getName().str()).substr(0, 80)};
+            }
         }
         return result;
     }
@@ -2372,10 +2429,16 @@ static std::string statsJson(Engine &E)
 {
     std::ostringstream js;
     js << "{\"instrs\":" << E.st.instrs << ",\"paths\":" << E.st.paths << ",\"queries\":" << E.st.queries << ",\"forks\":" << E.st.forks
-       << ",\"slow\":" << E.st.slowQueries << ",\"asserts\":" << E.st.asserts << ",\"sat\":" << E.st.sat << ",\"unsat\":" << E.st.unsat
+       << ",\"slow\":" << E.st.slowQueries << ",\"asserts\":" << E.st.asserts << ",\"simp_proved\":" << E.st.simpProved << ",\"sat\":" << E.st.sat << ",\"unsat\":" << E.st.unsat
        << ",\"solver_s\":" << E.st.solver_s << ",\"funcs\":[";
     bool first = true;
     for (auto &f : E.st.funcs) {
+        js << (first ? "" : ",") << jstr(f);
+        first = false;
+    }
+    js << "],\"hooks\":[";
+    first = true;
+    for (auto &f : E.hooksUsed) {
         js << (first ? "" : ",") << jstr(f);
         first = false;
     }
@@ -2441,6 +2504,7 @@ int main(int argc, char **argv)
     std::string modPath, entry, outPath;
     std::vector<std::string> links;
     int jobs = 1;
+    std::string startPrefix;
     uint64_t maxPaths = 1000000, sampleModels = 8;
     double wallS = 1e9;
     Engine E;
@@ -2461,6 +2525,7 @@ int main(int argc, char **argv)
         else if (a == "--alloc-cap") E.allocCap = strtoull(next().c_str(), nullptr, 10);
         else if (a == "--sample-models") sampleModels = strtoull(next().c_str(), nullptr, 10);
         else if (a == "--trace") E.trace = true;
+        else if (a == "--prefix") startPrefix = next();
         else if (a == "--known") {
             std::string k = next();
             size_t p = 0;
@@ -2537,7 +2602,7 @@ int main(int argc, char **argv)
 
     // ---- master state
     std::deque<std::string> queue;
-    queue.push_back("");
+    queue.push_back(startPrefix);
     std::vector<std::string> results; // path JSON objects
     std::vector<std::string> workerStats;
     uint64_t dispatched = 0, done = 0;
@@ -2609,6 +2674,19 @@ int main(int argc, char **argv)
                     }
             if (nbusy() == 0)
                 break;
+            if (wallLeft() < -20) {
+                // hard stop: paths still running well past the wall budget are abandoned (never counted as success)
+                truncated = true;
+                truncReason = "wall budget (running paths abandoned)";
+                for (auto &w : ws)
+                    if (w.busy && !w.dead) {
+                        kill(w.pid, SIGKILL);
+                        w.dead = true;
+                        w.busy = false;
+                        queue.push_back("abandoned");
+                    }
+                break;
+            }
             std::vector<pollfd> fds;
             std::vector<size_t> idx;
             for (size_t i = 0; i < ws.size(); i++)
